@@ -65,6 +65,10 @@ func (mt *MemTopics) Subscribe(topic []byte, qos byte, sub interface{}) (byte, e
 		return message.QosFailure, fmt.Errorf("Subscriber cannot be nil")
 	}
 
+	if err := checkSysTopic(topic); err != nil {
+		return message.QosFailure, err
+	}
+
 	mt.smu.Lock()
 	defer mt.smu.Unlock()
 
@@ -81,6 +85,10 @@ func (mt *MemTopics) Subscribe(topic []byte, qos byte, sub interface{}) (byte, e
 
 // Unsubscribe implements Provider.
 func (mt *MemTopics) Unsubscribe(topic []byte, sub interface{}) error {
+	if err := checkSysTopic(topic); err != nil {
+		return err
+	}
+
 	mt.smu.Lock()
 	defer mt.smu.Unlock()
 
@@ -91,6 +99,10 @@ func (mt *MemTopics) Unsubscribe(topic []byte, sub interface{}) error {
 func (mt *MemTopics) Subscribers(topic []byte, qos byte, subs *[]interface{}, qoss *[]byte) error {
 	if !message.ValidQos(qos) {
 		return fmt.Errorf("Invalid QoS %d", qos)
+	}
+
+	if err := checkSysTopic(topic); err != nil {
+		return err
 	}
 
 	mt.smu.RLock()
@@ -104,6 +116,10 @@ func (mt *MemTopics) Subscribers(topic []byte, qos byte, subs *[]interface{}, qo
 
 // Retain implements Provider.
 func (mt *MemTopics) Retain(msg *message.PublishMessage) error {
+	if err := checkSysTopic(msg.Topic()); err != nil {
+		return err
+	}
+
 	mt.rmu.Lock()
 	defer mt.rmu.Unlock()
 
@@ -119,6 +135,10 @@ func (mt *MemTopics) Retain(msg *message.PublishMessage) error {
 
 // Retained implements Provider.
 func (mt *MemTopics) Retained(topic []byte, msgs *[]*message.PublishMessage) error {
+	if err := checkSysTopic(topic); err != nil {
+		return err
+	}
+
 	mt.rmu.RLock()
 	defer mt.rmu.RUnlock()
 
@@ -471,8 +491,18 @@ const (
 	stateMWC             // Multi-level wildcard
 	stateSWC             // Single-level wildcard
 	stateSEP             // Topic level separator
-	stateSYS             // System level topic ($)
 )
+
+// checkSysTopic refuses topic names and filters that begin with '$': they are
+// reserved for the server (MQTT-4.7.2). Only the first character of the whole
+// topic is special; a '$' at the beginning of a later level is an ordinary
+// character, so this cannot be decided level by level in nextTopicLevel.
+func checkSysTopic(topic []byte) error {
+	if len(topic) > 0 && topic[0] == '$' {
+		return fmt.Errorf("memtopics: Cannot publish or subscribe to $ topics")
+	}
+	return nil
+}
 
 // Returns topic level, remaining topic levels and any errors
 func nextTopicLevel(topic []byte) ([]byte, []byte, error) {
@@ -504,13 +534,6 @@ func nextTopicLevel(topic []byte) ([]byte, []byte, error) {
 			}
 
 			s = stateSWC
-
-		case '$':
-			if i == 0 {
-				return nil, nil, fmt.Errorf("memtopics/nextTopicLevel: Cannot publish to $ topics")
-			}
-
-			s = stateSYS
 
 		default:
 			if s == stateMWC || s == stateSWC {
